@@ -43,6 +43,9 @@ func init() {
 				app(2)
 			}
 			app(synth.InitSend(make(chan int, 1)))
+		case 11:
+			app(synth.IdleStream(3 + c.I2%4)...)
+			app(synth.Ticks())
 		case 10:
 			app(synth.Misc(c.I2))
 		case 8:
